@@ -219,15 +219,21 @@ def run(ctx):
     with ThreadPoolExecutor(12) as ex:
         n_ops += sum(ex.map(sweep, fault_classes))
     # (iii) threads: cold-cache creation and use from 8 threads at once
-    n_thr_runs = 6 if quick else 60
+    n_thr_runs = 10 if quick else 80
     for t in range(n_thr_runs):
         cs = r.sample(pool, 5)
         per_thread = []
+        reads_first = t % 2 == 1      # cold start: every thread's FIRST operation is a decode (lazily built tables, first imports)
         for _ in range(8):
             ops = []
-            for i in r.sample(cs, len(cs)):
+            order = r.sample(cs, len(cs))
+            if reads_first:
+                for i in order:
+                    if ref[(i, 0)][0] == "ok":
+                        ops.append(["r", i, ref[(i, 0)][1]])
+            for i in order:
                 ops.append(["w", i, to_json(vals[i][0])])
-                if ref[(i, 0)][0] == "ok":
+                if ref[(i, 0)][0] == "ok" and not reads_first:
                     ops.append(["r", i, ref[(i, 0)][1]])
                 ops.append(["w", i, to_json(vals[i][1])])
             per_thread.append(ops)
@@ -341,7 +347,7 @@ def run(ctx):
     cov = {
         "evaluations": n_ops, "distinct_nontrivial": n_hist + 2 * len(fault_classes) + n_thr_runs,
         "traces_validated_against_impl": len(model_cases) - len(failing),
-        "rule": "fresh-interpreter histories (random orders of creating/using readers and writers of 6-12 classes incl. "
+        "rule": "fresh-interpreter histories (ENVIRONMENT: the same valid/truncated/corrupted operations under python -O, -OO, -X dev, LC_ALL=C, another hash seed and working directory must give identical results; after every faulted read a DIFFERENT (all-default) message of the class is decoded; classes with several tagged fields come first; random orders of creating/using readers and writers of 6-12 classes incl. "
                 "faulted writes) compared with cold single-class results; a stream fault at EVERY write call and every read "
                 "call followed by reuse of the cached closure; 8 threads behind a barrier with a 1 us switch interval on a cold "
                 "cache; two-thread deterministic schedules with two preemptions at traced lines of kio/serial (sys.settrace); distinct = number of distinct histories / fault sweeps / thread runs",
